@@ -1,7 +1,7 @@
 SPECIFICATION Spec
 CONSTANTS
   Types = {"int", "float", "str", "list", "tuple"}
-  BinOps = {"+", "-", "*", "/", "//", "%", "**", "<<", ">>", "|", "^", "&"}
+  BinOps = {"+", "-", "*", "/", "//", "%", "**", "<<", ">>", "|", "^", "&", "@"}
   CmpOps = {"==", "!=", "<", "<=", ">", ">=", "in", "not in", "is", "is not"}
   Depth2 = FALSE
   Shapes = {"full", "empty", "neg"}
